@@ -460,11 +460,32 @@ class LoopCheck:
         return self.fn.nodes[es[0]]["l"] if es else None
 
 
+def member_stream(f):
+    """access path `this.<member>` of the stream member a method extracts from (None if it has a stream parameter)"""
+    if any(is_stream_type(f.tyname(p["t"])) for p in f.params) or not f.cls:
+        return None
+    for n in f.walk():
+        if n["k"] == "Call" and n.get("ch"):
+            s = stream_of(f, n["ch"][0])
+            if s and s.startswith("this."):
+                return s
+    return None
+
+
 def consumer_functions(prog):
-    """keys of first-party functions that (transitively) extract from an istream parameter"""
+    """keys of first-party functions that (transitively) extract from an istream parameter
+    (or, for methods, from a stream member of their own object)"""
     direct = set()
     for f in prog.all_functions():
         if not any(is_stream_type(f.tyname(p["t"])) for p in f.params):
+            ms = member_stream(f)
+            if ms:
+                for n in f.walk():
+                    if n["k"] == "Call" and (n.get("fn") or "").startswith("std::"):
+                        short = n["fn"].split("::")[-1]
+                        if (short in REAL_CONSUME or n.get("opcall") == ">>") and n.get("ch") and stream_of(f, n["ch"][0]) == ms:
+                            direct.add(f.key)
+                            break
             continue
         for n in f.walk():
             if n["k"] == "Call" and (n.get("fn") or "").startswith("std::"):
@@ -487,3 +508,478 @@ def consumer_functions(prog):
                     changed = True
                     break
     return cons
+
+
+# ---------------------------------------------------------------------------------------------------
+# E3b `progress` — with a *good* stream, every iteration of a loop that dispatches on the look-ahead
+# character consumes at least one character (otherwise the same character is seen again: livelock).
+# Abstract machine: look-ahead L (known char / unknown), tracked char variables, net consumption
+# (get/ignore/>>char = +1, putback/unget = -1); first-party consumers are summarised per look-ahead.
+# ---------------------------------------------------------------------------------------------------
+class Progress:
+    MAXDEPTH = 3
+
+    def __init__(self, prog, consumers):
+        self.prog = prog
+        self.consumers = consumers
+        self.memo = {}
+        self.bykey = {}
+        for (k, _), f in prog.functions.items():
+            self.bykey.setdefault(k, []).append(f)
+
+    # ---- helpers on one function ---------------------------------------------------------
+    def _stream_param(self, f):
+        for p in f.params:
+            if is_stream_type(f.tyname(p["t"])):
+                return p["d"]
+        return None
+
+    def run_region(self, f, S, start_block, start_state, stop_blocks, body=None, depth=0, max_states=6000):
+        """Explore from start_block; returns list of (end_kind, block, state) where end_kind in
+        'stop' (reached a stop block) / 'return' / 'exit' (left `body`).  state = (vars, L, consumed)."""
+        cfg = f.cfg
+        outs = []
+        seen = set()
+        work = [(start_block, start_state, True)]
+        n = 0
+        while work:
+            b, (vs, L, cons), first = work.pop()
+            cons = max(-3, min(3, cons))       # saturate: >= 1 is progress, a few putbacks stay visible
+            if b in stop_blocks and not first:
+                outs.append(("stop", b, (vs, L, cons)))
+                continue
+            if body is not None and b not in body:
+                outs.append(("exit", b, (vs, L, cons)))
+                continue
+            key = (b, tuple(sorted(vs.items())), L, cons)
+            if key in seen:
+                continue
+            seen.add(key)
+            n += 1
+            if n > max_states:
+                outs.append(("explosion", b, (vs, L, cons)))
+                return outs
+            blk = cfg.blocks[b]
+            states = [(dict(vs), L, cons)]
+            returned = False
+            for e in blk["e"]:
+                node = f.nodes[e]
+                new_states = []
+                for st in states:
+                    new_states.extend(self.apply(f, S, node, st, depth))
+                states = new_states[:64]
+                if node["k"] == "Return":
+                    returned = True
+            if returned or b == cfg.exit:
+                for st in states:
+                    outs.append(("return", b, st))
+                continue
+            if blk.get("noreturn"):
+                continue
+            succs = blk["s"]
+            tc = blk.get("tc")
+            cond = f.nodes.get(tc) if tc is not None and tc >= 0 else None
+            for (vs2, L2, c2) in states:
+                if blk.get("tkind") == "SwitchStmt" and cond is not None:
+                    pass
+                if any(k0.startswith("@ret:") for k0 in vs2):
+                    keep = dict(vs2)
+                else:
+                    keep = vs2
+                if blk.get("tkind") == "SwitchStmt" and cond is not None:
+                    v = self.value(f, S, cond, vs2, L2)
+                    targets = []
+                    default = None
+                    for s in succs:
+                        if s < 0:
+                            continue
+                        lb = cfg.blocks[s].get("lb")
+                        ln = f.nodes.get(lb) if lb is not None and lb >= 0 else None
+                        if ln is not None and ln["k"] == "Case":
+                            if isinstance(v, int):
+                                if ln.get("val") == v:
+                                    targets.append((s, vs2, L2))
+                            else:
+                                # unknown selector: the arm is taken with the selector equal to its label
+                                vs3 = dict(vs2)
+                                sel = strip(cond)
+                                L3 = L2
+                                if sel is not None and sel["k"] == "Ref":
+                                    vs3[sel["d"]] = ln.get("val")
+                                    if vs2.get("@peek:" + sel["d"]):
+                                        L3 = ln.get("val")
+                                targets.append((s, vs3, L3))
+                        else:
+                            default = s
+                    if default is not None and (not isinstance(v, int) or not targets):
+                        targets.append((default, vs2, L2))
+                    if isinstance(v, int) and targets:
+                        targets = targets[:1]
+                    for s, vs3, L3 in targets:
+                        work.append((s, (vs3, L3, c2), False))
+                elif len(succs) == 2 and cond is not None:
+                    v = self.truth(f, S, cond, vs2, L2)
+                    choices = [0] if v is True else ([1] if v is False else [0, 1])
+                    for ci in choices:
+                        s = succs[ci]
+                        if s >= 0:
+                            work.append((s, (vs2, L2, c2), False))
+                else:
+                    for s in succs:
+                        if s >= 0:
+                            work.append((s, (vs2, L2, c2), False))
+        return outs
+
+    # ---- abstract values --------------------------------------------------------------------
+    def value(self, f, S, n, vs, L):
+        n = strip(n)
+        if n is None:
+            return None
+        k = n["k"]
+        if k in ("Int", "Char", "Bool"):
+            return n.get("val")
+        if k == "Ref":
+            if "val" in n:
+                return n["val"]
+            return vs.get(n.get("d"))
+        if "val" in n:
+            return n["val"]
+        if k == "Call" and n.get("member") and n.get("ch") and stream_of(f, n["ch"][0]) == S:
+            short = (n.get("fn") or "").split("::")[-1]
+            if short == "peek":
+                return L
+            if short == "get" and len(call_args(n)) == 0:
+                return vs.get("@ret:%d" % n["i"])
+        if k == "Assign":
+            return self.value(f, S, n["ch"][1], vs, L)
+        if k == "Binary" and n["op"] == ",":
+            return self.value(f, S, n["ch"][1], vs, L)
+        if k == "Cast":
+            return self.value(f, S, n["ch"][0], vs, L)
+        return None
+
+    def truth(self, f, S, n, vs, L):
+        n = strip(n)
+        if n is None:
+            return None
+        k = n["k"]
+        if k == "Unary" and n["op"] == "!":
+            v = self.truth(f, S, n["ch"][0], vs, L)
+            return None if v is None else (not v)
+        if k == "Binary":
+            op = n["op"]
+            if op == "&&":
+                a, b = self.truth(f, S, n["ch"][0], vs, L), self.truth(f, S, n["ch"][1], vs, L)
+                if a is False or b is False:
+                    return False
+                return True if (a and b) else None
+            if op == "||":
+                a, b = self.truth(f, S, n["ch"][0], vs, L), self.truth(f, S, n["ch"][1], vs, L)
+                if a or b:
+                    return True
+                return False if (a is False and b is False) else None
+            if op in ("==", "!="):
+                a, b = self.value(f, S, n["ch"][0], vs, L), self.value(f, S, n["ch"][1], vs, L)
+                if isinstance(a, int) and isinstance(b, int):
+                    return (a == b) if op == "==" else (a != b)
+                return None
+            return None
+        if k == "Call":
+            short = (n.get("fn") or "").split("::")[-1]
+            if n.get("member") and n.get("ch") and stream_of(f, n["ch"][0]) == S:
+                # the stream is good and has content in this mode
+                if short in ("good", "operator bool", "operator void *"):
+                    return True
+                if short in ("eof", "fail", "bad", "operator!"):
+                    return False
+            if n.get("opcall") == "!" and n.get("ch") and stream_of(f, n["ch"][0]) == S:
+                return False
+            if short in ("strchr", "__builtin_strchr") and len(n.get("ch") or []) == 2:
+                hay = strip(n["ch"][0])
+                hs = None
+                if hay is not None and hay["k"] == "Str":
+                    hs = hay.get("s", "")
+                elif hay is not None and hay["k"] == "Ref" and isinstance(vs.get(hay.get("d")), tuple):
+                    hs = vs[hay["d"]][1]
+                v = self.value(f, S, n["ch"][1], vs, L)
+                if hs is not None and isinstance(v, int):
+                    return (chr(v & 0xff) in hs) or v == 0
+                return None
+            if short in CTYPE and n.get("ch"):
+                v = self.value(f, S, n["ch"][0], vs, L)
+                if isinstance(v, int) and 0 <= v < 128:
+                    fn = {"isdigit": str.isdigit, "isalpha": str.isalpha, "isalnum": str.isalnum, "isspace": str.isspace,
+                          "isupper": str.isupper, "islower": str.islower}.get(short)
+                    return fn(chr(v)) if fn else None
+                return None
+            return None
+        if k in ("Ref", "Member", "Cast"):
+            if stream_of(f, n) == S and is_stream_type(f.ty(n)) and not f.ty(n).endswith("*"):
+                return True
+            v = self.value(f, S, n, vs, L)
+            return bool(v) if isinstance(v, int) else None
+        v = self.value(f, S, n, vs, L)
+        return bool(v) if isinstance(v, int) else None
+
+    # ---- transfer -----------------------------------------------------------------------------
+    def apply(self, f, S, node, st, depth):
+        """-> list of successor states (vars, L, consumed)"""
+        states = [st]
+        # evaluate calls / assignments in evaluation order (post-order over the element)
+        order = []
+        stack = [node]
+        while stack:
+            x = stack.pop()
+            if x is None:
+                continue
+            order.append(x)
+            for c in (x.get("ch") or []):
+                if c is not None and not (c["i"] in f.cfg.pos and c is not node):
+                    stack.append(c)
+        for x in reversed(order):
+            new = []
+            for (vs, L, cons) in states:
+                new.extend(self._one(f, S, x, vs, L, cons, depth))
+            states = new[:64]
+        return states
+
+    def _one(self, f, S, x, vs, L, cons, depth):
+        k = x["k"]
+        if k == "Assign":
+            lhs = strip(x["ch"][0])
+            if lhs is not None and lhs["k"] == "Ref":
+                vs = dict(vs)
+                rhs = strip(x["ch"][1])
+                v = self.value(f, S, x["ch"][1], vs, L)
+                is_peek = rhs is not None and rhs["k"] == "Call" and (rhs.get("fn") or "").endswith("::peek")
+                while rhs is not None and rhs["k"] == "Cast":
+                    rhs = strip(rhs["ch"][0])
+                    is_peek = rhs is not None and rhs["k"] == "Call" and (rhs.get("fn") or "").endswith("::peek")
+                if v is None:
+                    vs.pop(lhs["d"], None)
+                else:
+                    vs[lhs["d"]] = v
+                if is_peek:
+                    vs["@peek:" + lhs["d"]] = 1
+                else:
+                    vs.pop("@peek:" + lhs["d"], None)
+            return [(vs, L, cons)]
+        if (k == "Unary" and ("++" in x["op"] or "--" in x["op"])) or k == "CompoundAssign":
+            t = strip(x["ch"][0])
+            if t is not None and t["k"] in ("Ref", "Member"):
+                vs = dict(vs)
+                pth = t.get("d") or access_path(t)
+                vs.pop(pth, None)
+                if pth in getattr(self, "_exitvars", ()):
+                    vs["@inc"] = 1
+            return [(vs, L, cons)]
+        if k == "Var":
+            vs = dict(vs)
+            if x.get("ch") and x["ch"][0] is not None:
+                v = self.value(f, S, x["ch"][0], vs, L)
+                if v is None:
+                    vs.pop(x["d"], None)
+                else:
+                    vs[x["d"]] = v
+            else:
+                vs.pop(x["d"], None)
+            return [(vs, L, cons)]
+        if k not in ("Call", "Construct"):
+            return [(vs, L, cons)]
+        short = (x.get("fn") or "").split("::")[-1]
+        args = call_args(x) if k == "Call" else (x.get("ch") or [])
+        onS = bool(x.get("ch")) and stream_of(f, x["ch"][0]) == S
+        if (x.get("fn") or "").startswith("std::") and onS:
+            vs = dict(vs)
+            if short == "peek":
+                return [(vs, L, cons)]
+            if short == "get":
+                if len(args) == 0:
+                    if isinstance(L, int):
+                        vs["@ret:%d" % x["i"]] = L
+                    else:
+                        vs.pop("@ret:%d" % x["i"], None)
+                    return [(vs, None, cons + 1)]
+                if len(args) == 1:
+                    t = strip(args[0])
+                    if t is not None and t["k"] == "Ref":
+                        if L is None:
+                            vs.pop(t["d"], None)
+                        else:
+                            vs[t["d"]] = L
+                        vs.pop("@peek:" + t["d"], None)
+                    return [(vs, None, cons + 1)]
+                return [(vs, None, cons)]       # get(buf, n): may read nothing
+            if short == "ignore":
+                return [(vs, None, cons + 1)]
+            if short == "putback":
+                v = self.value(f, S, args[0], vs, L) if args else None
+                return [(vs, v, cons - 1)]
+            if short == "unget":
+                return [(vs, None, cons - 1)]
+            if x.get("opcall") == ">>" or short == "operator>>":
+                tgt = strip(x["ch"][1]) if len(x["ch"]) > 1 else None
+                if tgt is not None and tgt["k"] == "Ref" and tgt.get("n") == "ws":
+                    if isinstance(L, int) and not chr(L & 0x7f).isspace():
+                        return [(vs, L, cons)]
+                    return [(vs, None if not isinstance(L, int) else None, cons)]
+                if tgt is not None and tgt["k"] == "Ref" and f.ty(tgt) in ("char", "unsigned char", "signed char"):
+                    if isinstance(L, int) and not chr(L & 0x7f).isspace():
+                        vs[tgt["d"]] = L
+                    else:
+                        vs.pop(tgt["d"], None)
+                    vs.pop("@peek:" + tgt["d"], None)
+                    return [(vs, None, cons + 1)]
+                if tgt is not None and tgt["k"] == "Ref":
+                    vs.pop(tgt["d"], None)
+                return [(vs, None, cons)]
+            if short in ("getline", "read", "readsome", "seekg", "clear"):
+                return [(vs, None, cons)]
+            return [(vs, L, cons)]
+        # method of the same object consuming from the same member stream
+        if x.get("fk") in self.consumers and x.get("member") and S.startswith("this.") and x.get("ch") and \
+                strip(x["ch"][0]) is not None and strip(x["ch"][0])["k"] == "This" and not any(stream_of(f, a) for a in args):
+            outs = self.summary(x["fk"], L, depth, member=S, strargs=self._strargs(args))
+            return [(dict(vs), L2, cons + d) for (d, L2) in outs]
+        # first-party consumer receiving the stream
+        if x.get("fk") in self.consumers and any(stream_of(f, a) == S for a in args):
+            outs = self.summary(x["fk"], L, depth, strargs=self._strargs(args))
+            vs = dict(vs)
+            from absint import param_types
+            pts = param_types(x.get("fk") or "")
+            for a, t in zip(args, pts):
+                s = strip(a)
+                if s is not None and s["k"] == "Ref" and t.endswith("&") and not t.startswith("const ") and not is_stream_type(t):
+                    vs.pop(s["d"], None)
+                if s is not None and s["k"] == "Unary" and s["op"] == "&":
+                    t0 = strip(s["ch"][0])
+                    if t0 is not None and t0["k"] == "Ref":
+                        vs.pop(t0["d"], None)
+            return [(vs, L2, cons + d) for (d, L2) in outs]
+        # any other call: locals passed by reference / address become unknown
+        vs2 = None
+        for a in args:
+            s = strip(a)
+            if s is not None and s["k"] == "Unary" and s["op"] == "&":
+                t0 = strip(s["ch"][0])
+                if t0 is not None and t0["k"] == "Ref" and t0["d"] in vs:
+                    vs2 = vs2 or dict(vs)
+                    vs2.pop(t0["d"], None)
+        return [(vs2 if vs2 is not None else vs, L, cons)]
+
+    @staticmethod
+    def _strargs(args):
+        out = []
+        for i, a in enumerate(args):
+            a0 = strip(a)
+            while a0 is not None and a0["k"] in ("DefaultArg",) and a0.get("ch"):
+                a0 = strip(a0["ch"][0])
+            if a0 is not None and a0["k"] == "Str":
+                out.append((i, a0.get("s", "")))
+        return tuple(out)
+
+    def summary(self, fk, L, depth, member=None, strargs=()):
+        """set of (net consumption lower bound capped to [-1,1], resulting look-ahead) of a consumer;
+        strargs: ((param index, literal), ...) string-literal arguments of this call site"""
+        key = (fk, L, member, tuple(strargs))
+        if key in self.memo:
+            return self.memo[key]
+        if depth >= self.MAXDEPTH:
+            return {(0, None)}
+        self.memo[key] = {(0, None)}      # recursion guard: assume no progress
+        outs = set()
+        for f in self.bykey.get(fk, []):
+            S = None
+            for p in f.params:
+                if is_stream_type(f.tyname(p["t"])):
+                    S = p["d"]
+                    break
+            if S is None and member is not None:
+                S = member
+            if S is None or f.cfg is None:
+                outs.add((0, None))
+                continue
+            vs0 = {}
+            for i, lit in strargs:
+                if i < len(f.params):
+                    vs0[f.params[i]["d"]] = ("str", lit)
+            res = self.run_region(f, S, f.cfg.entry, (vs0, L, 0), set(), None, depth + 1)
+            for kind, b, (vs, L2, cons) in res:
+                if kind == "explosion":
+                    outs.add((0, None))
+                elif kind == "return":
+                    outs.add((max(-1, min(1, cons)), L2))
+        if not outs:
+            outs = {(1, None)}      # never returns normally
+        self.memo[key] = outs
+        return outs
+
+    def alphabet(self, f, body):
+        chars = set()
+
+        def scan(fn, nodes):
+            for n in nodes:
+                for x in walk(n):
+                    if x["k"] == "Char" and 32 <= x.get("val", 0) < 127:
+                        chars.add(x["val"])
+                    if x["k"] == "Call" and (x.get("fn") or "").split("::")[-1] in ("strchr", "__builtin_strchr"):
+                        h0 = strip(x["ch"][0]) if x.get("ch") else None
+                        if h0 is not None and h0["k"] == "Str":
+                            chars.update(ord(c) for c in h0.get("s", "") if 32 <= ord(c) < 127)
+        scan(f, [f.nodes[e] for b in body for e in f.cfg.blocks[b]["e"]])
+        for b in body:
+            for e in f.cfg.blocks[b]["e"]:
+                n = f.nodes[e]
+                if n["k"] == "Call" and n.get("fk") in self.consumers:
+                    for g in self.bykey.get(n["fk"], []):
+                        scan(g, [g.body])
+        chars.update(ord(c) for c in "Aa0 _")
+        return sorted(chars)
+
+    # ---- loop check -----------------------------------------------------------------------------
+    def check_loops(self, f):
+        """-> list of site dicts for loops that dispatch on the look-ahead character"""
+        lc = LoopCheck(self.prog, f, self.consumers)
+        sites = []
+        for h, body in lc.loops().items():
+            cons = lc.consuming_calls(body)
+            if not cons:
+                continue
+            for S in sorted({s for _, s, _ in cons}):
+                # does an exit/branch condition of the loop read the look-ahead (peek) ?
+                uses_peek = False
+                for b in body:
+                    for e in f.cfg.blocks[b]["e"]:
+                        n = f.nodes[e]
+                        for x in walk(n):
+                            if x["k"] == "Call" and (x.get("fn") or "").endswith("::peek") and x.get("ch") and stream_of(f, x["ch"][0]) == S:
+                                uses_peek = True
+                if not uses_peek:
+                    continue
+                self._exitvars = lc.exit_compared_vars(body)
+                res = self.run_region(f, S, h, ({}, None, 0), {h}, body)
+                # case split on the look-ahead: every character that the loop or its consumers compare against,
+                # plus representatives of the character classes
+                alphabet = self.alphabet(f, body)
+                for ch in alphabet:
+                    res = res + self.run_region(f, S, h, ({}, ch, 0), {h}, body)
+                cand = [r for r in res if r[0] == "stop" and r[2][2] <= 0 and isinstance(r[2][1], int) and "@inc" not in r[2][0]]
+                undecided = [r for r in res if r[0] == "stop" and r[2][2] <= 0 and not isinstance(r[2][1], int)]
+                expl = [r for r in res if r[0] == "explosion"]
+                bad = []
+                for r in cand:
+                    # confirm: a second iteration starting with that very look-ahead comes back unchanged
+                    vs1 = {k: v for k, v in r[2][0].items() if k != "@inc"}
+                    res2 = self.run_region(f, S, h, (vs1, r[2][1], 0), {h}, body)
+                    if any(q[0] == "stop" and q[2][2] <= 0 and q[2][1] == r[2][1] and "@inc" not in q[2][0] for q in res2):
+                        bad.append(r)
+                head = f.cfg.blocks[h]
+                tk = head.get("tk")
+                line = f.nodes[tk]["l"] if tk is not None and tk >= 0 and tk in f.nodes else None
+                sites.append({"head": h, "line": line, "stream": S, "ok": (False if bad else (None if expl else True)),
+                              "undecided_paths": len(undecided),
+                              "witness": [{"lookahead": (chr(r[2][1]) if isinstance(r[2][1], int) and 32 <= r[2][1] < 127 else r[2][1]),
+                                           "net_consumed": r[2][2]} for r in bad[:3]],
+                              "witness_all": [{"lookahead": (chr(r[2][1]) if isinstance(r[2][1], int) and 32 <= r[2][1] < 127 else r[2][1]),
+                                               "net_consumed": r[2][2]} for r in bad]})
+        return sites
